@@ -37,6 +37,39 @@ Manifold menu_object(int id) {
   return e.M.back();
 }
 
+// Faults on pairs of coupled arrays (their lengths are validated against each other): every
+// combination of a few lengths for (runIndex, runOriginalID), (runOriginalID, runTransform),
+// (runOriginalID, runFlags), (mergeFromVert, mergeToVert), (triVerts, faceID), (triVerts, halfedgeTangent).
+std::vector<std::vector<Fault>> enumerate_pairs(const StoredMesh& s) {
+  std::vector<std::vector<Fault>> out;
+  const int groups[6][2] = {{F_RI, F_RO}, {F_RO, F_RT}, {F_RO, F_RF}, {F_MF, F_MT}, {F_TV, F_FI}, {F_TV, F_HT}};
+  for (auto& gp : groups) {
+    std::vector<std::vector<Fault>> opts[2];
+    for (int side = 0; side < 2; side++) {
+      const int fi = gp[side];
+      const size_t n = s.elems(fi);
+      opts[side].push_back({});  // untouched
+      if (n > 0) {
+        opts[side].push_back({Fault{"lose", fi, 0, 0, 0}});
+        for (int64_t k : {(int64_t)1, (int64_t)2, (int64_t)3, (int64_t)n - 1})
+          if (k > 0 && (size_t)k < n) opts[side].push_back({Fault{"truncate", fi, k, 0, 0}});
+        opts[side].push_back({Fault{"dup", fi, (int64_t)n - 1, 0, 0}});
+      } else {
+        opts[side].push_back({Fault{"mix", fi, 0, 0, 0}});
+      }
+    }
+    for (auto& a : opts[0])
+      for (auto& b : opts[1]) {
+        if (a.empty() && b.empty()) continue;
+        if (a.empty() || b.empty()) continue;  // single faults are in the other enumerations
+        std::vector<Fault> c = a;
+        c.insert(c.end(), b.begin(), b.end());
+        out.push_back(c);
+      }
+  }
+  return out;
+}
+
 // The structurally dangerous single faults (lengths, lost/torn arrays, indices at and beyond
 // every bound, non-finite and extreme values, scalars): small enough to run completely in
 // every quick pass. The full enumeration adds the bit flips and every truncation/tear point.
@@ -264,10 +297,17 @@ std::string job_c09(const Args& a) {
       cases.push_back(parse_faults(a.s("faults")));
       total = 1;
     } else {
-      auto all = a.s("set", "full") == "smoke" ? enumerate_smoke(base) : enumerate_faults(base);
-      total = all.size();
-      size_t from = (size_t)a.u("from", 0), to = std::min<size_t>(all.size(), (size_t)a.u("to", all.size()));
-      for (size_t i = from; i < to; i++) cases.push_back({all[i]});
+      if (a.s("set", "full") == "pairs") {
+        auto all = enumerate_pairs(base);
+        total = all.size();
+        size_t from = (size_t)a.u("from", 0), to = std::min<size_t>(all.size(), (size_t)a.u("to", all.size()));
+        for (size_t i = from; i < to; i++) cases.push_back(all[i]);
+      } else {
+        auto all = a.s("set", "full") == "smoke" ? enumerate_smoke(base) : enumerate_faults(base);
+        total = all.size();
+        size_t from = (size_t)a.u("from", 0), to = std::min<size_t>(all.size(), (size_t)a.u("to", all.size()));
+        for (size_t i = from; i < to; i++) cases.push_back({all[i]});
+      }
     }
     const bool p32 = a.i("precision", 64) == 32;
     for (auto& fl : cases) {
@@ -400,17 +440,18 @@ std::string job_c09obj(const Args& a) {
 }
 
 std::string job_c09count(const Args& a) {
-  size_t n = 0, bytes = 0, nsmoke = 0;
+  size_t n = 0, bytes = 0, nsmoke = 0, npairs = 0;
   SimSetup s = sim_setup(a);
   run_simulated(s, [&]() {
     Manifold m = menu_object((int)a.i("obj", 0));
     n = enumerate_faults(SimStore::store(m.GetMeshGL64())).size();
     nsmoke = enumerate_smoke(SimStore::store(m.GetMeshGL64())).size();
+    npairs = enumerate_pairs(SimStore::store(m.GetMeshGL64())).size();
     std::stringstream ss;
     m.WriteOBJ(ss);
     bytes = ss.str().size();
   });
-  return JObj().u64("faults", n).u64("smoke", nsmoke).u64("obj_bytes", bytes).i64("menu", kMenuSize).done();
+  return JObj().u64("faults", n).u64("smoke", nsmoke).u64("pairs", npairs).u64("obj_bytes", bytes).i64("menu", kMenuSize).done();
 }
 
 }  // namespace
